@@ -1094,6 +1094,7 @@ pub fn profiles(thorough: bool) -> Vec<OProf> {
         OProf { name: "clear-and-reuse", u: 16, len: 220, w: [30, 8, 6, 8, 6, 6, 4, 4, 2, 6, 5, 5, 1, 1, 2, 4, 1], ..base.clone() },
         OProf { name: "handles-held-across-inserts", u: 60, len: 300, w: [40, 2, 1, 4, 4, 4, 2, 4, 0, 0, 2, 2, 0, 0, 4, 12, 0], ..base.clone() },
         OProf { name: "medium", u: 400, len: 2500 * big, w: [34, 12, 8, 8, 6, 6, 4, 4, 1, 0, 6, 6, 0, 0, 1, 2, 0], ..base.clone() },
+        OProf { name: "marathon", u: 96, len: 3_000_000 * big, w: [30, 12, 8, 8, 6, 6, 4, 4, 1, 0, 5, 5, 0, 0, 1, 2, 0], target_pop: 48, ..base.clone() },
         OProf { name: "large-bounded-population", u: 6000, len: 12000 * big, w: [40, 22, 14, 6, 4, 4, 2, 2, 0, 0, 3, 3, 0, 0, 0, 0, 0], target_pop: 700, ..base.clone() },
     ]
 }
